@@ -85,7 +85,32 @@ ASCII = list(range(0x20, 0x7F))
 HIGH = [0xE9, 0xF1, 0xFF, 0xA0, 0x20AC, 0x2122, 0x178, 0x152, 0x160, 0x2026, 0xC7]
 
 
+# texts that are valid in MORE THAN ONE encoding: the cp1252 reading of UTF-8 byte sequences ("mojibake" — what a label typed as é, µV, €
+# or Cyrillic а looks like after a wrong turn), digits and signs that parse as numbers, blanks at either end, a text that is another
+# label plus a blank. Each is an ordinary cp1252 string and must come back as the characters it is.
+_SPECIAL_TEXTS = [t.encode("utf-8").decode("cp1252") for t in ("é", "µV", "€", "а", "ß", "ñ", "Déltoïde", "50 µV", "–", "™x")] + \
+                 ["1", "007", "-1", "1e3", "0x10", "nan", "inf", "None", "True", " x", "x ", "  ", "x\t", "A", "a", "é", "e\u0301"[:1]]
+LAST_LABELS = []          # labels generated recently: one label in eight repeats one of them (items of one block sharing a label, also "")
+
+
 def gen_label(rng, width):
+    r0 = rng.random()
+    if r0 < 0.06:
+        t = rng.choice(_SPECIAL_TEXTS)
+        if len(t) < width:
+            return [ord(c) for c in t]
+    elif r0 < 0.18 and LAST_LABELS:
+        t = rng.choice(LAST_LABELS[-4:])
+        if len(t) < width:
+            return list(t)
+    lab = _gen_label(rng, width)
+    LAST_LABELS.append(lab)
+    if len(LAST_LABELS) > 32:
+        del LAST_LABELS[:16]
+    return lab
+
+
+def _gen_label(rng, width):
     r = rng.random()
     if r < 0.12:
         n = 0
@@ -133,6 +158,17 @@ def gen_frames(rng, k, n, mask=None):
             out.append(None)
         else:
             out.append([gen_f32(rng, finite=True)] + [gen_f32(rng, finite=rng.random() < 0.97) for _ in range(k - 1)])
+    # data-dependent paths: a track at rest — every present row all zero (+0.0 or -0.0), or its FIRST component zero on every present
+    # row, or the same row throughout
+    r = rng.random()
+    if r < 0.04:
+        z = rng.choice([0, 0x80000000])
+        out = [None if f is None else [z] * k for f in out]
+    elif r < 0.08:
+        out = [None if f is None else [0] + f[1:] for f in out]
+    elif r < 0.11:
+        first = next((f for f in out if f is not None), None)
+        out = [None if f is None else list(first) for f in out]
     return out
 
 
